@@ -43,11 +43,14 @@ through `World.boundary(label)`, which counts it and can inject a fault there:
                             `trace.post` as seen by _finish and appcfg.abort
   (none)                    `OsProxy`: `os` in _run with a per-container pid
 
-A fault during a start is an `InjectedFault` (an OSError(EIO): the call fails
-and `run()` propagates or handles it as the code decides); `start()` then does
-what `sproc run` does with a failed run: flag the container aborted; the
-process is gone, so its sockets are closed.  A fault during a finish is a
-`Crash` (BaseException: the finishing process is killed).
+A fault is an `InjectedFault` (an OSError(EIO): that one call fails before it
+has any effect - the firewall plugin's cleanup excepted, see there - and the
+code under test propagates or handles it as it decides) or, for a finish, also
+a `Crash` (BaseException: the finishing process is killed there).  After a
+failed run() `start()` does what `sproc run` does: flag the container aborted;
+the process is gone, so its sockets are closed.  What follows a finish (retry
+when it raised, removal of the container directory when it returned) is the
+caller's business: see props/c16.py.
 
 Nothing here decides what is right or wrong: the oracle lives in props/c16.py
 and only reads `World.snapshot()` / `World.services()`.
@@ -327,8 +330,13 @@ class FakePluginManager(object):
 
             @staticmethod
             def cleanup_exception_rules(_tm_env, _container_dir, app):
-                hook('plugin.cleanup')
+                # The plugin lives outside the repository and both call
+                # sites deliberately swallow whatever it raises, so what a
+                # failing plugin leaves behind is not treadmill's to answer
+                # for: the 'plugin' area of the snapshot only shows whether
+                # the hook was called.  Hence effect first, fault after.
                 outer.rules.pop(appcfg.app_unique_name(app), None)
+                hook('plugin.cleanup')
 
         self.plugin = Plugin
 
@@ -757,24 +765,38 @@ class World(object):
             for sock in cont.sockets:
                 sock.close()
 
-    def finish(self, idx, crash_at=None):
-        """`treadmill sproc finish` of container idx through the real finish().
+    def finish(self, idx, fault=None, kill=False):
+        """The real finish() of container idx, as LinuxRuntime._finish calls
+        it from the cleanup service.
 
-        crash_at=k kills the finishing process at its k-th boundary call
-        (returns the label of that call, else None)."""
+        fault: None | {'at': k} | {'label': L, 'nth': n}: that boundary call
+        of this finish fails (InjectedFault, an OSError) or, with kill=True,
+        the finishing process is killed there (Crash).
+        Returns (outcome, detail): ('returned', None) | ('killed', label) |
+        ('raised', exception).  `fault_hit` tells whether / where the fault
+        was injected."""
         cont = self.containers[idx]
         self.exit_container(idx)
         armed = None
-        if crash_at is not None:
-            armed = {'at': crash_at, 'exc': Crash}
+        if fault is not None:
+            armed = dict(fault, exc=Crash if kill else InjectedFault)
         self._arm(armed)
         try:
             _finish.finish(self.env, cont.container_dir)
         except Crash as crash:
-            return str(crash)
+            return 'killed', str(crash)
+        except Exception as err:  # pylint: disable=broad-except
+            return 'raised', err
         finally:
             self.fault = None
-        return None
+        return 'returned', None
+
+    def remove_container_dir(self, idx):
+        """What RuntimeBase.finish does once _finish() has returned."""
+        shutil.rmtree(self.containers[idx].container_dir)
+
+    def container_dir_exists(self, idx):
+        return os.path.isdir(self.containers[idx].container_dir)
 
 
 def _readlink(path):
